@@ -480,7 +480,7 @@ fn main() {
     let target = std::env::var("CARGO_TARGET_DIR").map(PathBuf::from).unwrap_or_else(|_| args.verif_dir.join("target"));
     let scratch = target.join("tmp-c22").join(format!("{}-{}-{}", args.tier, args.seed, std::process::id()));
     let threads = ncpu();
-    let histories_per_thread = args.pick(24usize, 1200usize);
+    let histories_per_thread = args.pick(24usize, 500usize);
     let file_every = args.pick(8usize, 4usize);
     let scratch2 = scratch.clone();
     let parts = parallel(threads, args.seed, move |ti, mut rng| {
